@@ -196,10 +196,10 @@ Proof.
       eapply join_process_stmt; eauto.
     + destruct (join_process_omp L l ls t Ht Hj H) as [t' [J S]].
       exists ([(KOmp, t')], []). split; [assumption|].
-      unfold jequiv, item_equiv. cbn. rewrite S, str_eqb_refl. reflexivity.
+      unfold jequiv, item_equiv, canon. cbn [fst snd is_dir kind_eqb list_eqb andb]. rewrite S, str_eqb_refl. reflexivity.
     + destruct (join_process_acc L l ls t Ht Hj H) as [t' [J S]].
       exists ([(KAcc, t')], []). split; [assumption|].
-      unfold jequiv, item_equiv. cbn. rewrite S, str_eqb_refl. reflexivity.
+      unfold jequiv, item_equiv, canon. cbn [fst snd is_dir kind_eqb list_eqb andb]. rewrite S, str_eqb_refl. reflexivity.
     + exists ([(KStmt, t)], []). split; [|apply jequiv_refl].
       eapply join_process_stmt; eauto.
 Qed.
